@@ -58,7 +58,7 @@ func (t *T) Op(op string, observed string) {
 	if i := strings.IndexAny(o, " ,:;="); i > 0 {
 		o = o[:i]
 	}
-	if len(o) <= 12 {
+	if len(o) <= 12 && !strings.ContainsAny(o, "0123456789") {
 		t.Dist["out:"+w+":"+Enc(o)]++
 	}
 }
